@@ -146,6 +146,18 @@ func forget(prefix string) {
 	keptB = keptB[:n]
 }
 
+// forgetViews drops the kept views whose label starts with prefix.
+func forgetViews(prefix string) {
+	n := 0
+	for _, k := range keptV {
+		if !strings.HasPrefix(k.label, prefix) {
+			keptV[n] = k
+			n++
+		}
+	}
+	keptV = keptV[:n]
+}
+
 func noteUnstable(format string, a ...interface{}) {
 	if firstNote == "" {
 		firstNote = fmt.Sprintf(format, a...)
